@@ -359,6 +359,39 @@ def err_class(s):
     return s
 
 
+def anchor_seq(j):
+    """Anchor name (or None) of every value node of a canonical document, in document order (set members: none)."""
+    out = [j.get("a")]
+    if j["k"] == "map":
+        for _, v in j["e"]:
+            out += anchor_seq(v)
+    elif j["k"] == "seq":
+        for v in j["i"]:
+            out += anchor_seq(v)
+    return out
+
+
+def text_anchor_seq(text):
+    """The same for a YAML text, from ruamel's composed node graph (an alias is the anchored node itself)."""
+    from ruamel.yaml import YAML
+    from ruamel.yaml.nodes import MappingNode, SequenceNode
+    try:
+        root = YAML().compose(text)
+    except Exception:  # noqa
+        return None
+
+    def walk(n):
+        out = [n.anchor or None]
+        if isinstance(n, MappingNode) and not str(n.tag).endswith(":set"):
+            for _, v in n.value:
+                out += walk(v)
+        elif isinstance(n, SequenceNode):
+            for v in n.value:
+                out += walk(v)
+        return out
+    return walk(root) if root is not None else [None]
+
+
 def dump_reload(data):
     """Dump with the tool's own editor, reload with the strict loader.  Returns ("ok", plain-json)
     | ("dump-failed", T) | ("reload-failed",)."""
@@ -383,6 +416,8 @@ def dump_reload(data):
     if not ok:
         return ("reload-failed", "", text)
     try:
-        return ("ok", codec.node_to_json(back, anchors=False), text)
+        # 4th element: the anchor name (or None) of every value node of the DUMPED TEXT in document order, read from the
+        # composed node graph (the constructor drops the anchor of some scalars, e.g. `&x 0`, so objects will not do)
+        return ("ok", codec.node_to_json(back, anchors=False), text, text_anchor_seq(text))
     except codec.OutOfModel as e:
         return ("oom", str(e), text)
